@@ -58,7 +58,8 @@ def direct_known(o):
 
 
 def case_input(o):
-    return {"scenario": o["scn"], "inject": o["kind"], "errno_or_signal": o["what"], "point": o["point"], "set": o["set"],
+    return {"scenario": o["scn"], "inject": "F" if o["kind"] == "R" else o["kind"], "non_mutating_call": bool(o.get("read")),
+            "errno_or_signal": o["what"], "point": o["point"], "set": o["set"],
             "call_of_recording": o["rec_step"], "call_hit": o["hit"]}
 
 
@@ -67,7 +68,7 @@ def evaluate(ctx, recs, outs, env, stats):
     terms = []
     for r in recs:
         n = len(r.steps)
-        injs = [("F", i) for i in range(n)] + [("S", i) for i in range(n)]
+        injs = [("F", i) for i in range(n)] + [("S", i) for i in range(n)] + [("R", i) for i in range(n)]
         terms.append(cl.report_term(r, injs))
         terms.append(cl.known_term(r, list(range(n))))
         terms.append(cl.follow_term(r, list(range(n))))
@@ -85,7 +86,7 @@ def evaluate(ctx, recs, outs, env, stats):
                               {"input": {"scenario": r.scn.name}, "commit_pre_b": pre[0], "same_type_b": pre[1]})
         n = len(r.steps)
         pred[id(r)] = {"perm": rep[0], "trace": rep[1], "final": rep[2], "align": rep[3],
-                       "F": rep[4][:n], "S": rep[4][n:], "known": known, "follow": follow}
+                       "F": rep[4][:n], "S": rep[4][n:2 * n], "R": rep[4][2 * n:], "known": known, "follow": follow}
         inp = {"scenario": r.scn.name, "command": r.scn.final("<w>")}
         ctx.count(("rec", r.scn.name, r.set), nontrivial=True,
                   sample={"scenario": r.scn.name, "calls": n, "model_log_covers": rep[0], "trace_equal": rep[1], "final_tree_equal": rep[2]})
@@ -109,11 +110,14 @@ def evaluate(ctx, recs, outs, env, stats):
         if not o["reached"]:
             stats["point_not_reached"] = stats.get("point_not_reached", 0) + 1
             continue
+        if o["read"]:
+            o["kind"] = "R"
+            stats["runs_R"] = stats.get("runs_R", 0) + 1
         okey = "%s_%s_%s" % (o["kind"], o["cls"], "rc0" if o["rc"] == 0 else "rcN")
         stats[okey] = stats.get(okey, 0) + 1
         verdict = judge(o)
         midx = o["midx"]
-        kc = p["known"][midx] if (midx is not None and o["kind"] == "F") else direct_known(o)
+        kc = p["known"][midx] if (midx is not None and o["kind"] == "F") else (0 if o["read"] else direct_known(o))
         ctx.count((o["scn"], o["kind"], o["what"], tuple(o["hit"] or ()), o["cls"], o["rc"] == 0, o["set"]), nontrivial=True,
                   sample={"input": case_input(o), "rc": o["rc"], "class": o["cls"], "follow": [f[:2] for f in o["follow"]],
                           "model": (p[o["kind"]][midx] if midx is not None else None)})
@@ -153,6 +157,21 @@ def evaluate(ctx, recs, outs, env, stats):
                                    "model": {"retry": mr, "reset": mz}})
 
 
+def read_jobs(ctx, rrecs):
+    """error injection into the non-mutating calls on the object root and the staged object, from the lock to the unlock"""
+    jobs = []
+    n = 0
+    for r in rrecs:
+        every = (r.scn.kind, r.scn.layout, r.scn.ext) in cl.READ_ALL or not ctx.quick()
+        for rp in r.reads:
+            if not 2 <= rp["next"] < len(r.steps):
+                continue
+            n += 1
+            if every or n % 3 == 0:
+                jobs.append((r, "F", rp["next"], ["EIO", "EACCES"][n % 2], rp["point"]))
+    return jobs
+
+
 def make_jobs(ctx, recs, wrecs):
     jobs = []
     n = 0
@@ -184,25 +203,30 @@ def run(ctx):
     for s in wscn:
         s.name += "-w"
     wrecs = cl.prepare(ctx, env, wscn, set_="mutating+write", workers=workers)
-    jobs = make_jobs(ctx, recs, wrecs)
+    rscn = [cl.Scn(*x) for x in cl.READ_ALL + cl.READ_SAMPLED]
+    for s in rscn:
+        s.name += "-r"
+    rrecs = cl.prepare(ctx, env, rscn, set_="all-fs", workers=workers)
+    jobs = make_jobs(ctx, recs, wrecs) + read_jobs(ctx, rrecs)
     with concurrent.futures.ThreadPoolExecutor(max_workers=workers) as ex:
         outs = list(ex.map(lambda j: (j[0], cl.run_case(j[0], env, j[1], j[2], j[3], point=j[4], set_=j[0].set)), jobs))
     stats = {}
-    evaluate(ctx, recs + wrecs, outs, env, stats)
-    ctx.coverage["scenarios"] = [r.scn.name for r in recs + wrecs]
+    evaluate(ctx, recs + wrecs + rrecs, outs, env, stats)
+    ctx.coverage["scenarios"] = [r.scn.name for r in recs + wrecs + rrecs]
+    ctx.coverage["read_fault_points"] = sum(1 for j in jobs if j[0].set == "all-fs")
     ctx.coverage["injection_points"] = sum(len(r.steps) for r in recs)
     ctx.coverage["traces_validated_against_impl"] = len(outs) + len(recs) + len(wrecs)
     ctx.coverage["distribution"] = stats
     ctx.assumptions += [
         "the model's two-step file write (truncate, data) abstracts the individual write calls: faults inside a partially completed write are not byte-exact (a partial file is one token)",
-        "fault positions are the calls strace counts (mutating set, plus write calls for the sampled write-granularity runs); read-only calls are not failed",
+        "fault positions: every mutating call (plus sampled write calls), and the non-mutating calls (open for reading, read, getdents64, stat family) on the object root and the staged object between lock and unlock (set all-fs; quick: all of them in the version scenarios, a third elsewhere); the model does not number reads one by one: a failing read is predicted as an abort at the position of the next mutating step, or as swallowed by the caller (fault-free outcome)",
         "no fault is injected into the rollback of a fault (single-fault sequences); a fault at the unlink of the lock file leaves the lock behind (as C13 states)",
         "SIGINT is handled by rocfl's ctrl-c thread asynchronously: the observed outcome must be among the model's outcomes for a stop request at the aligned or any later position",
         "`new` is compared modulo the choice Inventory::dedup_head makes among equal head content paths (HashSet order, differs from run to run)",
     ]
     return common.finish_with_proof(ctx, proof,
         rule="scenarios = commit kinds x layouts 0004/0002 x default/external staging (quick: 10 + 4 at write granularity); every call of the "
-             "fault-free recording is failed with EIO/ENOSPC/EACCES (quick: one errno per call, rotating) and hit by SIGINT; distinct = "
+             "fault-free recording is failed with EIO/ENOSPC/EACCES (quick: one errno per call, rotating) and hit by SIGINT; read calls on both object roots with EIO/EACCES; distinct = "
              "(scenario, injection, call hit, outcome class, exit status); every run is non-trivial")
 
 
@@ -214,7 +238,7 @@ def replay(ctx, body):
         return run(ctx)
     common.build_rocfl_release()
     env = st.rocfl_env(os.path.join(ctx.tmp, "home"))
-    kind, layout, stg = name.replace("-w", "").rsplit("-", 2)
+    kind, layout, stg = name.replace("-w", "").replace("-r", "").rsplit("-", 2)
     scn = cl.Scn(kind, layout, stg == "ext")
     rec = cl.record(cl.build_template(ctx, scn, env), env, set_=inp.get("set"))
     idx = [i for i, s in enumerate(rec.steps) if list(s["point"]) == list(inp["point"])]
